@@ -8,6 +8,7 @@ the supplied tables (a line feed is not an identifier character — checked by t
 character it sends).
 -/
 import KotoVerif.Lemmas.C09Inv
+import KotoVerif.Lemmas.C09Newline
 
 namespace KotoVerif.C09
 open KotoVerif.Lexer
@@ -159,6 +160,55 @@ theorem lines_exact_partial (src : List Ch) (ht : TableOk src) :
         obtain ⟨pre', post', e1', e2', e3', _⟩ := hinv'
         exact ⟨exactAt_of src pre post _ _ e1 (by simp [lexedOf, h1, e2]) (by simp [lexedOf, h4, e3 rfl]),
                exactAt_of src pre' post' _ _ e1' (by simp [lexedOf, e2']) (by simp [lexedOf, e3' rfl])⟩
+
+/-- consecutive tokens: each span starts where the previous one stopped, and a `NewLine` token
+stops at column 0 -/
+def SpanChain : Pos → List Lexed → Prop
+  | _, [] => True
+  | p, l :: ls => (l.tok ≠ .error → l.span.start = p ∧ (l.tok = .newLine → l.span.stop.col = 0)) ∧
+      SpanChain l.span.stop ls
+
+/-- **Span chaining and column reset (partial).** Every non-error token's span starts exactly where
+the previous token's span stopped (position (0,0) for the first), and every `NewLine` token stops at
+column 0 — so the token that follows a line break *that is a NewLine token* starts at column 0.
+Partial: line breaks inside multi-line tokens (strings, comments) are covered by the correspondence
+run and the direct check only, not by this theorem. -/
+theorem column_reset_newline_partial (src : List Ch) (ht : TableOk src) :
+    SpanChain ⟨0, 0⟩ (lexAll src) := by
+  suffices H : ∀ fuel s, Inv false src s → SpanChain s.span.stop (lexFuel src fuel s) by
+    exact H _ _ (inv_init false src)
+  intro fuel
+  induction fuel with
+  | zero => intro s _; simp [lexFuel, SpanChain]
+  | succ fuel ih =>
+    intro s hinv
+    simp only [lexFuel]
+    cases hstep : stepD src s with
+    | none => simp [SpanChain]
+    | some ds =>
+      obtain ⟨d, s'⟩ := ds
+      simp only
+      by_cases he : d.tok = .error
+      · simp [he, SpanChain, lexedOf]
+      · simp only [he, if_false]
+        obtain ⟨hinv', _, _, h4⟩ := stepD_inv false src s s' d ht hinv hstep he (by simp)
+        refine ⟨fun _ => ⟨by simp [lexedOf, h4], ?_⟩, ih s' hinv'⟩
+        intro hnl
+        simp only [lexedOf] at hnl ⊢
+        -- unfold the step: the decision is a NewLine decision
+        unfold stepD at hstep
+        cases hd : dropBytes s.cur src with
+        | none => simp [hd] at hstep
+        | some post =>
+          cases post with
+          | nil => simp [hd] at hstep
+          | cons c rest =>
+            simp only [hd, Option.some.injEq, Prod.mk.injEq] at hstep
+            obtain ⟨hd', hs'⟩ := hstep
+            rw [← hd'] at hnl
+            obtain ⟨n, hm⟩ := decideTok_newline _ _ _ c rest hnl
+            rw [← hs']
+            simp [applyDecision, applyMove, hm]
 
 /-! ## the excluded case is real: F-C09-1 -/
 
